@@ -42,7 +42,7 @@
       case REMOVE_LAST_K: { HKey rk(-7); status_t r = t.RemoveLast(rk); FAILIF(r.IsOK() != (n > 0), "status wrong"); if (n) { FAILIF(rk.id != m[n - 1].k, "returned key wrong"); RRemove(&w, T, m, m[n - 1].k); } else FAILIF(rk.id != -7 || r != B_DATA_NOT_FOUND, "empty table: argument written or wrong error code"); break; }
       case REMOVE_TABLE: { const uint32 c = t.Remove(u); uint32 e = 0; for (size_t i = 0; i < mu.size(); i++) if (RRemove(&w, T, m, mu[i].k)) e++; FAILIF(c != e, verif::Fmt("returned %u expected %u", c, e)); break; }
       case REMOVE_SELF: { const uint32 c = t.Remove(t); RClear(&w, T, m); FAILIF(c != n, verif::Fmt("returned %u expected %u", c, (unsigned)n)); break; }
-      case INTERSECT: { const uint32 c = t.Intersect(u); uint32 e = 0; for (size_t i = 0; i < m.size();) { if (RFind(mu, m[i].k) < 0) { RRemove(&w, T, m, m[i].k); e++; } else i++; } FAILIF(c != e, verif::Fmt("returned %u expected %u", c, e)); FAILIF(t.Intersect(t) != 0, "Intersect(self) removed something"); break; }
+      case INTERSECT: { const uint32 c = t.Intersect(u); const uint32 e = RIntersect(&w, T, m, mu); FAILIF(c != e, verif::Fmt("returned %u expected %u", c, e)); FAILIF(t.Intersect(t) != 0, "Intersect(self) removed something"); break; }
       // ---------------------------------------------------------------- Move family
       case MTF: { status_t r = t.MoveToFront(ka); const bool e = RFind(m, o.a) >= 0; RToFront(&w, T, m, o.a); FAILIF(r.IsOK() != e, "status wrong"); FAILIF(!e && r != B_DATA_NOT_FOUND, "error code not B_DATA_NOT_FOUND"); break; }
       case MTB: { status_t r = t.MoveToBack(ka); const bool e = RFind(m, o.a) >= 0; RToBack(&w, T, m, o.a); FAILIF(r.IsOK() != e, "status wrong"); FAILIF(!e && r != B_DATA_NOT_FOUND, "error code not B_DATA_NOT_FOUND"); break; }
@@ -150,7 +150,8 @@
       }
 #undef FAILIF
 #undef NEEDLIVE
-      w.lastResult = res;
+      w.lastResult = res; w.step++; LastSteps() = w.step;
+      if (!checkEveryStep && LevelLen() > 0 && w.step < LevelLen()) return seqx::SEQX_OK;   // a proper prefix: verified when it was a history of its own
       const bool touchesU = (o.k == PUT_TABLE || o.k == REMOVE_TABLE || o.k == INTERSECT || (o.k >= ASSIGN_T_U && o.k <= SWAPWITHTABLE) || o.k == U_REMOVE || o.k == U_PUT || o.k == U_CLEAR || o.k == AL_MOVETOTABLE_FIRSTKEY);
       if (!CheckAll(w, touchesU, msg, key)) { msg = o.name + ": " + msg + Dump(w); key = key + ":" + kKindNames[o.k]; return seqx::SEQX_VIOLATION; }
       return seqx::SEQX_OK;
